@@ -19,12 +19,12 @@ from . import common
 def _key_for_shape(case):
     prog = case.get("program", {})
     tags = prog.get("tags", [])
-    if case.get("multi_record_alts") or "multi-record-alts" in tags or _src_multi_record_alts(prog):
-        return "shape-mismatch:pattern-translator:multi-record-alts"
     if case.get("annotated_record_order") or "permuted-record-fields" in tags:
         return "shape-mismatch:permuted-record-fields"
-    if "imports-io-module" in tags and "run_io=1" in case.get("settings", ""):
+    if "imports-io-module" in tags and "run_io=1" in case.get("settings", "") and "IO" in str(case.get("type", "")):
         return "shape-mismatch:imported-io-module:run_io"
+    if case.get("multi_record_alts") or "multi-record-alts" in tags or (not prog.get("modules") and _src_multi_record_alts(prog)):
+        return "shape-mismatch:pattern-translator:multi-record-alts"
     h = common.hashlib.sha1((prog.get("main", "") + case.get("value", "")).encode()).hexdigest()[:8]
     return "shape-mismatch:" + h
 
